@@ -1,3 +1,3 @@
-@property
-def parent(self):
-    return self._parent
+@parent.setter
+def parent(self, parent):
+    self._parent = parent
